@@ -224,6 +224,11 @@ func scopesC07plain(thorough bool) []Scope {
 	scs = append(scs,
 		Scope{Name: "L-half-2", GS: synthGS(0, 2, [2]int64{7, 7}), Spec: lat.Spec{Points: lat.Window(2, 2, 2), MaxK: k(4, 6), Valid: true}, IDSets: one},
 		Scope{Name: "L-holes-2", GS: synthGS(0, 2, [2]int64{7, 7}), Spec: lat.Spec{Points: lat.Window(2, 2, 2), MaxK: k(3, 4), Valid: true, MaxHoles: k(1, 2), HoleMaxK: 3}, IDSets: one},
+		// rings of a few pixels at the deepest ids of the real grids, far from the origin: whatever decides the
+		// direction of a ring works on coordinates of 1e5..1e7 with areas of 1e-5..1e-3
+		Scope{Name: "R-half-2:NetherlandsRDNewQuad-z16", GS: realGS("NetherlandsRDNewQuad", 16, 2, 250000.5, 600000.5), Spec: lat.Spec{Points: lat.Window(2, 2, 2), MaxK: k(4, 5), Valid: true}, IDSets: [][]int{{16}}},
+		Scope{Name: "R-holes-2:NetherlandsRDNewQuad-z16", GS: realGS("NetherlandsRDNewQuad", 16, 2, 120000.25, 480000.75), Spec: lat.Spec{Points: lat.Window(2, 2, 2), MaxK: k(3, 4), Valid: true, MaxHoles: 1, HoleMaxK: 3}, IDSets: [][]int{{16}}},
+		Scope{Name: "R-half-2:WebMercatorQuad-z20", GS: realGS("WebMercatorQuad", 20, 2, 550000.1, 6800000.2), Spec: lat.Spec{Points: lat.Window(2, 2, 2), MaxK: k(4, 5), Valid: true}, IDSets: [][]int{{20}}},
 	)
 	return scs
 }
